@@ -194,7 +194,9 @@ func c18(c *Ctx) {
 		"the other .tm files of the repository (ts and cc targets, compiler testdata), textual mutations of them (consistent symbol renames, shuffled keyword rules, toggled options) " +
 		"and random feature grammars for go/ts/cc (class rule + keywords, aliases and named references in semantic actions, typed symbols, lists with separators, optionals and opt-suffix instantiation, nested choices with mid-rule actions, " +
 		"precedence, several inputs, lalr(2) conflicts resolved by the lookahead trie, state markers incl. .greedy, token sets, template flags); mutated/random grammars that do not compile are dropped. " +
+		"Dedicated shapes: cc grammars with 2-6 distinct implicit casts of default actions (flexMode on/off); lalr(2) grammars with 2-4 reduce/reduce conflict groups in ONE state, each resolved at depth 2; rules whose mid-rule actions are preceded by >= 2 symbols and followed by optionals/choices (go and cc); nodePrefix variants. " +
 		"Each grammar: generated k times in this process and in child processes with GOMAXPROCS=1 and 16 (every run draws fresh random map orders), digests of all Writer.Write calls (names, order, content) compared; " +
+		"hist cases: grammar B generated after grammar A in ONE fresh process vs B alone in a fresh process (nodePrefix variants and consecutive grammars of one target language, both directions); cwd cases: the same content as relative path g.tm generated from two different working directories; " +
 		"non-trivial = a grammar that generated at least one file; distinct by grammar text. inv cases: Remap injective / ArgRefs[k].Pos==k on the compiled grammars; site cases: inventory of tools/factgen on the tree under test vs the Lean classification. " +
 		"The class of the fixed finding C18-opt-alias-collision (aliasIncludesOptSuffix = false with a rule naming both `x` and `x<optsuffix>`) is generated: the witness grammar (40 in-process + 24 child runs) and about a third of the random grammars."
 
